@@ -85,6 +85,9 @@ pub struct TapQuery {
     pub leaf: Option<(u8, Vec<u8>, u32)>,
     /// deliberately malformed prevouts: 0 = fine, 1 = All of wrong length, 2 = One with another index
     pub bad_prevouts: u8,
+    /// ask through the convenience wrapper (`taproot_key_spend_signature_hash` /
+    /// `taproot_script_spend_signature_hash`) instead of `taproot_sighash`; only without an annex
+    pub wrapper: bool,
 }
 
 pub fn gen_tap_query(r: &mut Rg, nin: usize, allow_bad: bool) -> TapQuery {
@@ -109,6 +112,7 @@ pub fn gen_tap_query(r: &mut Rg, nin: usize, allow_bad: bool) -> TapQuery {
             None
         },
         bad_prevouts: if allow_bad && gen::chance(r, 1, 14) { r.gen_range(1..3) } else { 0 },
+        wrapper: gen::chance(r, 1, 3),
     }
 }
 
@@ -148,16 +152,32 @@ pub fn lib_tap<T: std::ops::Deref<Target = Transaction>>(
         }
         None => None,
     };
-    let r = if q.one {
+    // the two wrappers are the general entry point without an annex
+    // (the script-path wrapper fixes the code-separator position at 0xffffffff)
+    let via_wrapper = q.wrapper && q.annex.is_none() && q.leaf.as_ref().map_or(true, |(_, _, pos)| *pos == 0xffff_ffff);
+    let script_holder = q.leaf.as_ref().map(|(_, s, _)| Script::from(s.clone()));
+    let mut call = |cache: &mut SighashCache<T>, pv: &Prevouts<TxOut>| -> Result<[u8; 32], elements::sighash::Error> {
+        if via_wrapper {
+            match (&q.leaf, &script_holder) {
+                (Some((v, _, pos)), Some(script)) => {
+                    let sp = elements::sighash::ScriptPath::new(script, *pos, LeafVersion::from_u8(*v).expect("valid leaf version"));
+                    cache.taproot_script_spend_signature_hash(q.idx, pv, sp, q.ty, genesis).map(|h| h.to_byte_array())
+                }
+                _ => cache.taproot_key_spend_signature_hash(q.idx, pv, q.ty, genesis).map(|h| h.to_byte_array()),
+            }
+        } else {
+            cache.taproot_sighash(q.idx, pv, annex.clone(), leaf, q.ty, genesis).map(|h| h.to_byte_array())
+        }
+    };
+    if q.one {
         let k = if q.bad_prevouts == 2 { q.idx + 1 } else { q.idx };
         let p = &prevs[q.idx.min(prevs.len() - 1)];
-        cache.taproot_sighash(q.idx, &Prevouts::One(k, p), annex, leaf, q.ty, genesis)
+        call(cache, &Prevouts::One(k, p.clone()))
     } else if q.bad_prevouts == 1 {
-        cache.taproot_sighash(q.idx, &Prevouts::All(&prevs[..prevs.len() - 1]), annex, leaf, q.ty, genesis)
+        call(cache, &Prevouts::All(&prevs[..prevs.len() - 1]))
     } else {
-        cache.taproot_sighash(q.idx, &Prevouts::All(prevs), annex, leaf, q.ty, genesis)
-    };
-    r.map(|h| h.to_byte_array())
+        call(cache, &Prevouts::All(prevs))
+    }
 }
 
 pub fn tap_query_class(q: &TapQuery) -> String {
@@ -394,7 +414,7 @@ pub fn run(ctx: &mut Ctx) {
             let ty = *gen::pick(&mut ctx.rng, &ECDSA_TYPES);
             let sty = *gen::pick(&mut ctx.rng, &SCHNORR_TYPES);
             let sc = Script::from(gen::bytes(&mut ctx.rng, 25));
-            let q = TapQuery { idx, ty: sty, one: false, annex: None, leaf: None, bad_prevouts: 0 };
+            let q = TapQuery { idx, ty: sty, one: false, annex: None, leaf: None, bad_prevouts: 0, wrapper: false };
             let gh = elements::BlockHash::from_byte_array(genesis);
             let base_l = SighashCache::new(&t).legacy_sighash(idx, &sc, ty).to_byte_array();
             let base_s = SighashCache::new(&t).segwitv0_sighash(idx, &sc, prevs[idx].value, ty).to_byte_array();
